@@ -16,6 +16,13 @@ pure elements and elements MIXING classes between their Gauss points.  Checks pe
               bulk = lamb + 2 mu / dim, C^T S C = C with S written with the Stress-split
               coefficients, C^T S C = C and inv_sqrtC sqrtC = I for every material; Det/Trace 2x2
 
+  scale       positive homogeneity  Sigma+(s eps) = s Sigma+(eps), psi+(s eps) = s^2 psi+(eps) with
+              s = 2^k per Gauss point (needs no reference decomposition), 1e-9 relative, every class
+
+Every state (every Gauss point, pure and mixed elements) gets its own magnitude, log-uniform over
+1e-12 .. 1e+2 (strains; times |T| for the tensor a stress-/He-based split decomposes); all
+tolerances are relative to the magnitude of the state.
+
 Tolerances: 1e-9 relative for generic (well separated) spectra.  On exactly degenerate spectra the
 closed-form (arccos) eigenvalues are conditioned like sqrt(machine eps): 1e-6 |A| is demanded there.
 """
@@ -85,13 +92,24 @@ def rand_rot(dim, rng):
     return Q
 
 
+MAG_LO, MAG_HI = -12.0, 2.0      # strain magnitudes 1e-12 .. 1e+2 (log-uniform); the tensor a
+#                                  stress-/He-based split decomposes gets the same range times |T|
+
+
 def rand_amp(rng):
-    return rng.choice([1e-3, 2.5e-4, 3e-2, 1.0, 7.0]) * rng.choice([1, 1, -1])
+    """log-uniform magnitude over 14 decades, random sign (every class, every Gauss point)."""
+    return 10.0 ** rng.uniform(MAG_LO, MAG_HI) * rng.choice([1, 1, -1])
 
 
-def gen_state(cls, dim, rng):
-    """symmetric dim x dim tensor of the given spectral class (exact in floats when aligned)."""
-    a = rand_amp(rng)
+def decade(x):
+    return int(np.floor(np.log10(abs(x)))) if x != 0 else None
+
+
+def gen_state(cls, dim, rng, a=None):
+    """symmetric dim x dim tensor of the given spectral class (exact in floats when aligned),
+    of magnitude |a| (drawn over 14 decades when not given)."""
+    if a is None:
+        a = rand_amp(rng)
     if cls == "zero":
         return np.zeros((dim, dim))
     if cls == "generic":
@@ -173,6 +191,7 @@ def check_model(name, matp, split, regu, rng, fails, stats, npure, nmixed):
     else:
         T = np.eye(D)
     Tinv = np.linalg.inv(T)
+    Tscale = np.linalg.norm(T, 2) if fam in ("stress", "He") else 1.0
     cls_list = classes(dim)
     nPg = 4
     elems = []   # list of [classes per gp]
@@ -193,10 +212,20 @@ def check_model(name, matp, split, regu, rng, fails, stats, npure, nmixed):
             A = gen_state(c, dim, rng)
             t = to_vec(A)
             # the tensor actually decomposed by the split is T @ eps: choose eps = T^-1 t
-            eps[e, p] = Tinv @ t if fam in ("stress", "He") else t
+            eps[e, p] = Tinv @ (t * Tscale) if fam in ("stress", "He") else t
             tgt[e, p] = t
-    Eps = FeArray.asfearray(eps.copy())
     normC = np.linalg.norm(C)
+    # positive homogeneity: second evaluation at s * eps, s = 2^k per Gauss point (exact scaling in
+    # binary floating point, so a scale-invariant routine must reproduce s*Sigma+ and s^2*psi+ to
+    # round-off for EVERY class), the scaled magnitude again spread over the 14 decades
+    scal = np.ones((Ne, nPg))
+    for e in range(Ne):
+        for p in range(nPg):
+            n0 = np.linalg.norm(eps[e, p])
+            if n0 > 0:
+                target = 10.0 ** rng.uniform(MAG_LO, MAG_HI)
+                scal[e, p] = 2.0 ** int(round(np.log2(target / n0)))
+    eps_s = eps * scal[:, :, None]
 
     def record(kind, e, p, what, extra=None):
         cl = elems[e][p]
@@ -204,7 +233,7 @@ def check_model(name, matp, split, regu, rng, fails, stats, npure, nmixed):
         grp = "two_eq" if cl.startswith("two_eq") else "uniax" if cl.startswith("uniax") else cl
         kg = {"eig-nonfinite": "nonfinite", "proj-nonfinite": "nonfinite", "sigma-plus": "proj"}.get(kind, kind)
         # a generic/zero point is only interesting as "in a mixed element" (case selection per element)
-        key = "%s:%dd:%s%s" % (kg, dim, grp, ":in-mixed-element" if mixed and grp in ("generic", "zero") else "")
+        key = "%s:%dd:%s%s" % (kg, dim, grp, ":in-mixed-element" if mixed and grp in ("generic", "zero") and kg != "scale-invariance" else "")
         fails.add(key, what, dict(material=matp, matname=name, split=split, regu=regu, eps_elem=eps[e].tolist(),
                                   classes=elems[e], gp=p, kind=kind, extra=extra))
 
@@ -215,6 +244,14 @@ def check_model(name, matp, split, regu, rng, fails, stats, npure, nmixed):
     except Exception as ex:  # noqa: BLE001
         fails.add("exception:%dd:%s:%s" % (dim, fam, type(ex).__name__), "Calc_* raised %s: %s (material %s split %s)" % (type(ex).__name__, ex, name, split),
                   dict(material=matp, matname=name, split=split, regu=regu, eps_elem=eps[0].tolist(), classes=elems[0], gp=0, kind="exception"))
+        return
+    try:
+        SP2, _ = pfm.Calc_Sigma_e_pg(FeArray.asfearray(eps_s.copy()))
+        pP2, _ = pfm.Calc_psi_e_pg(FeArray.asfearray(eps_s.copy()))
+        SP2, pP2 = np.asarray(SP2), np.asarray(pP2)
+    except Exception as ex:  # noqa: BLE001
+        fails.add("exception:%dd:%s:%s" % (dim, fam, type(ex).__name__), "Calc_* raised %s on the scaled strains: %s (material %s split %s)" % (type(ex).__name__, ex, name, split),
+                  dict(material=matp, matname=name, split=split, regu=regu, eps_elem=eps_s[0].tolist(), classes=elems[0], gp=0, kind="exception"))
         return
     cP = np.broadcast_to(np.asarray(cP), (Ne, nPg, D, D))
     cM = np.broadcast_to(np.asarray(cM), (Ne, nPg, D, D))
@@ -254,6 +291,17 @@ def check_model(name, matp, split, regu, rng, fails, stats, npure, nmixed):
             if errC > TOL or errS > TOL * normC * nx or errP > TOL * normC * nx * nx:
                 record("partition", e, p, "cP+cM != C (rel %.3e), S+ + S- - C eps = %.3e, psi+ + psi- - psi = %.3e: material %s split %s class %s"
                        % (errC, errS, errP, name, split, cl), dict(errC=errC, errS=errS, errP=errP))
+            dk = decade(nx)
+            stats["by_decade"][str(dk)] = stats["by_decade"].get(str(dk), 0) + 1
+            sc_ = scal[e, p]
+            if nx > 0:
+                hs = np.linalg.norm(SP2[e, p] - sc_ * SP[e, p]) if np.isfinite(SP2[e, p]).all() else np.inf
+                hp = abs(pP2[e, p] - sc_ * sc_ * pP[e, p]) if np.isfinite(pP2[e, p]) else np.inf
+                rel = max(hs / (normC * nx * sc_), hp / (normC * nx * nx * sc_ * sc_))
+                stats["max_homogeneity_err"] = max(stats["max_homogeneity_err"], rel if np.isfinite(rel) else 1e300)
+                if not (rel <= TOL):
+                    record("scale-invariance", e, p, "positive homogeneity fails: |Sigma+(s eps) - s Sigma+(eps)| = %.3e (|C||s eps| = %.3e), |psi+(s eps) - s^2 psi+(eps)| = %.3e, s = 2^%d, |eps| = %.3e: material %s split %s class %s"
+                           % (hs, normC * nx * sc_, hp, int(round(np.log2(sc_))), nx, name, split, cl), dict(scale=float(sc_), hs=float(hs), hp=float(hp)))
             if fam == "none":
                 continue
             A = to_mat(vecn[e, p])
@@ -354,7 +402,7 @@ def main():
     npure, nmixed = (1, 3) if tier == "quick" else (3, 12)
     only = inp.get("only")
     fails = Fail()
-    stats = dict(cases=0, by_class={}, max_partition_err=0.0, max_eig_err={}, models=0)
+    stats = dict(cases=0, by_class={}, by_decade={}, max_partition_err=0.0, max_eig_err={}, max_homogeneity_err=0.0, models=0)
     mats = materials(rng)
     if not only:
         check_laws(fails, stats, mats)
